@@ -91,7 +91,13 @@ class SsbScriptSsbCompiler:
         parser.addParseListener(compiler_listener)
 
         # Start Parsing
-        parser.start()
+        try:
+            parser.start()
+        except Exception:
+            # The listener is called while parsing and can not deal with the incomplete trees of syntax errors.
+            if len(error_listener.syntax_errors) > 0:
+                raise ParseError(error_listener.syntax_errors[0])
+            raise
 
         # Look for errors
         if len(error_listener.syntax_errors) > 0:
